@@ -93,6 +93,17 @@ def work(tier, seed):
         for comm, cp in itertools.product(["FP32", "BF16"], [False, True]):
             units.append({"kind": "hybrid", "pset": [[12], [6, 5], [4, 2]], "R": R, "S": S, "g": -1, "comm": comm, "cp": cp, "cfg_kw": dict(opt_cfgs()[1], pdtype="bf16", prec_dtype="f32", max_dim=8),
                           "hists": h2[:: (9 if tier == "quick" else 2)], "seed": seed})
+    # parameters modified outside the optimizer between two steps (checkpoint load, clipping / projection): the next step
+    # starts from the current values; and device meshes whose dimensions carry other names or none
+    for (R, S) in [(2, 1), (2, 2)] + ([(3, 1), (1, 2)] if tier == "thorough" else []):
+        for cp in (False, True):
+            for comm in ("FP32", "BF16"):
+                units.append({"kind": "hybrid", "pset": PSETS[0], "R": R, "S": S, "g": -1, "comm": comm, "cp": cp, "cfg_kw": opt_cfgs()[1], "hists": h2[:: (7 if tier == "quick" else 1)], "seed": seed, "perturb": True})
+            for names in (["dp_replicate", "dp_shard"], None):
+                units.append({"kind": "hybrid", "pset": PSETS[0], "R": R, "S": S, "g": -1, "comm": "FP32", "cp": cp, "cfg_kw": opt_cfgs()[0], "hists": h2[:: (21 if tier == "quick" else 5)], "seed": seed, "mesh_names": names})
+    for S in (2, 3):
+        units.append({"kind": "fully", "pset": PSETS[0], "S": S, "cfg_kw": opt_cfgs()[1], "hists": h2[:: (7 if tier == "quick" else 1)], "seed": seed, "perturb": True})
+        units.append({"kind": "fully", "pset": PSETS[0], "S": S, "cfg_kw": opt_cfgs()[0], "hists": h2[::21], "seed": seed, "mesh_names": None})
     core = [[[1, 1, 1], [1, 1, 1]], [[1, 1, 1], [1, 0, 1]], [[0, 0, 1], [1, 1, 0]], [[0, 1, 0], [0, 0, 0]]]
     bound = 1 if tier == "quick" else 2
     for (R, S, g) in [(2, 1, 2), (2, 2, 2), (2, 2, 1)]:
@@ -139,6 +150,10 @@ def local_twin(unit, srank, hist):
             d.update_params = update_params
     out = []
     for t, mask in enumerate(hist):
+        if unit.get("perturb") and t >= 1:
+            with torch.no_grad():
+                for p in params:
+                    p.mul_(0.5)
         for (pi, a, b), p in zip(idx, params):
             g = torch.tensor(seq.grad_value(pi, t, tuple(unit["pset"][pi]), seed), dtype=PDT(unit)).reshape(unit["pset"][pi])
             p.grad = g[a:b].clone() if mask[pi] else None
@@ -158,12 +173,13 @@ def program(unit, hist):
 
         S, seed = unit["S"], unit["seed"]
         if unit["kind"] == "fully":
-            mesh = init_device_mesh("cpu", (S,), mesh_dim_names=("shard",))
+            mesh = init_device_mesh("cpu", (S,), mesh_dim_names=("shard",) if "mesh_names" not in unit else None)
             placements = [Shard(0)]
             srank = rank
             dc = FullyShardShampooConfig()
         else:
-            mesh = init_device_mesh("cpu", (unit["R"], S), mesh_dim_names=("replicate", "shard"))
+            names = unit.get("mesh_names", ["replicate", "shard"])
+            mesh = init_device_mesh("cpu", (unit["R"], S), mesh_dim_names=tuple(names) if names else None)
             placements = [Replicate(), Shard(0)]
             srank = rank % S
             dc = HybridShardShampooConfig(device_mesh=mesh, communication_dtype=distrun.comm_enum(unit["comm"]), num_trainers_per_group=unit["g"], communicate_params=unit["cp"])
@@ -181,6 +197,10 @@ def program(unit, hist):
         opt = DistributedShampoo(params, distributed_config=dc, **seq.ctor_kwargs(cfg))
         out = []
         for t, mask in enumerate(hist):
+            if unit.get("perturb") and t >= 1:
+                with torch.no_grad():
+                    for p in params:
+                        p.to_local().mul_(0.5)
             for pi, (p, shp) in enumerate(zip(params, unit["pset"])):
                 g = torch.tensor(seq.grad_value(pi, t, tuple(shp), seed), dtype=PDT(unit)).reshape(shp)
                 p.grad = mk(g, shp) if mask[pi] else None
@@ -217,7 +237,7 @@ def run_case(unit, hist, choices=(), bound=None):
     W = S if unit["kind"] == "fully" else unit["R"] * S
     fn = program(unit, hist)
     twins = {}
-    what = (f"FullyShard S={S}" if unit["kind"] == "fully" else f"HybridShard mesh={unit['R']}x{S} trainers_per_group={unit['g']} comm={unit['comm']} communicate_params={unit['cp']}") + f" params={unit['pset']} hist={hist}"
+    what = (f"FullyShard S={S}" if unit["kind"] == "fully" else f"HybridShard mesh={unit['R']}x{S} trainers_per_group={unit['g']} comm={unit['comm']} communicate_params={unit['cp']}") + f" params={unit['pset']} hist={hist}" + (" [parameters halved in place between the steps]" if unit.get("perturb") else "") + (f" [mesh dimension names {unit['mesh_names']}]" if "mesh_names" in unit else "")
 
     def check(s):
         import torch
